@@ -620,14 +620,15 @@ def history_part(ctx, cases):
                 for q2 in ("gamma", "comm", "generic"):
                     seqs.add(("gonze", route, (("set", a), ("run", q1), ("set", b), ("make", "-"), ("run", q2))))
     seqs = sorted(seqs)
-    if ctx.quick:
-        # every sequence with a re-assignment between two queries, plus a sample of the others
-        keep = [s_ for s_ in seqs if sum(1 for x in s_[2] if x[0] == "set") >= 2 and
-                sum(1 for x in s_[2] if x[0] == "run") >= 2]
-        kset = set(keep)
-        rest = [s_ for s_ in seqs if s_ not in kset]
-        ctx.rng.shuffle(rest)
-        seqs = keep + rest[:200]
+    # replayed: every sequence of length <= 4 with a re-assignment between two queries (all of them), the explicit
+    # Gonze-Lee ones, and a seeded sample of the others (TLC enumerates all of them on the model)
+    ctx.extra["history_sequences_enumerated"] = len(seqs)
+    keep = [s_ for s_ in seqs if len(s_[2]) <= 4 + (s_[0] == "gonze" and any(x[0] == "make" for x in s_[2])) and
+            sum(1 for x in s_[2] if x[0] == "set") >= 2 and sum(1 for x in s_[2] if x[0] == "run") >= 2]
+    kset = set(keep)
+    rest = [s_ for s_ in seqs if s_ not in kset]
+    ctx.rng.shuffle(rest)
+    seqs = keep + rest[: (200 if ctx.quick else 3000)]
 
     # ---- the concrete object and parameter sets ----------------------------------------------------
     pick = [t for t in cases if t[0]["mode"] == "random" and t[0]["entry"] in ("tetab", "cscl", "wz") and t[2]["comm"]]
